@@ -279,14 +279,46 @@ def run_history(ctx, spec_roots, choose, length, label):
         if op["op"] in ("detach", "replaceChild", "prune") and (
                 has_same_named_sibling(world, op.get("c", op["n"])) or op["op"] == "prune"):
             nontrivial = True
-        obs = apply_real(world, op)
-        st, prob = world.dump()
+        try:
+            with watchdog(10):
+                obs = apply_real(world, op)
+                st, prob = world.dump()
+        except NoTermination:
+            # an edit (or reading the tree after it) loops forever: the links have become cyclic
+            ctx.fail("a tree operation does not terminate (cyclic parent / children links)",
+                     {"forest": f0, "ops": ops + [op]}, "no result within 10 s", "the operation's result")
+            break
         ops.append(op)
         real_states.append((st, prob))
         observations.append(obs)
         ctx.dist["op=" + op["op"]] += 1
     return {"forest": f0, "ops": ops, "real": real_states, "obs": observations, "nontrivial": nontrivial,
             "label": label}
+
+
+class NoTermination(Exception):
+    pass
+
+
+class watchdog:
+    """Turn a non-terminating pure-Python operation into an exception (main thread, SIGALRM)."""
+
+    def __init__(self, seconds):
+        self.seconds = seconds
+
+    def __enter__(self):
+        import signal
+
+        def onalarm(signum, frame):
+            raise NoTermination()
+        self.old = signal.signal(signal.SIGALRM, onalarm)
+        signal.setitimer(signal.ITIMER_REAL, self.seconds)
+
+    def __exit__(self, *a):
+        import signal
+        signal.setitimer(signal.ITIMER_REAL, 0)
+        signal.signal(signal.SIGALRM, self.old)
+        return False
 
 
 def judge(ctx, runs):
@@ -450,7 +482,8 @@ def run(ctx):
             # bias towards structural edits
             s = [o for o in c if o["op"] in ("detach", "append", "insert", "replaceChild", "prune", "detachChildren",
                                               "clone")]
-            return rng.choice(s if s and rng.random() < 0.6 else c)
+            pool = s if s and rng.random() < 0.6 else c
+            return rng.choice(pool) if pool else None
         runs.append(run_history(ctx, specs, choose, L, "random"))
     judge(ctx, runs)
     clone_checks(ctx)
@@ -466,6 +499,9 @@ def widen(ctx):
 
 def witness(ctx, k):
     w = k["witness"]
+    if w.get("kind") == "clone-text":
+        from suds.sax.element import Element
+        return Element("x").setText("hello").clone().getText() != "hello"
     if "clone_xml" in w:
         from suds.sax.parser import Parser
         root = Parser().parse(string=w["clone_xml"].encode()).root()
